@@ -72,6 +72,9 @@ RemoveKidF(m, j, k) ==
   LET n == m.rels[j].kids[k]
   IN  [m EXCEPT !.feats = SelectSeq(@, LAMBDA f : f.name # n),
                 !.rels[j].kids = SelectSeq(@, LAMBDA x : x # n)]
+\* rel.children[k] = Feature(same name, parent=owner)   (a new object under the old name; the old child is a leaf)
+ReplaceKidF(m, j, k) == LET n == m.rels[j].kids[k]
+                        IN  [m EXCEPT !.feats[FeatIdx(m, n)] = Feat(n, m.rels[j].owner)]
 \* feature.is_abstract = not feature.is_abstract
 ToggleAbstractF(m, f) == [m EXCEPT !.feats[FeatIdx(m, f)].abs = ~@]
 \* attribute.set_default_value(v)
